@@ -124,6 +124,19 @@ def gen_cases(ctx, flags, n_random, n_sign):
         for sub in subs:
             for f in (flags if d in (100, 101) else flags[:2]):
                 yield {"k": "pre", "tx": raw, "flag": f, "idx": 1, "script": sub.hex(), "value": gen.u64(r), "deep_sep": d}
+    # code separators inside conditionals opened by EACH of the four openers (the parser folds all four into a block), in the pass and in
+    # the else branch, one and two levels deep
+    for oi, opn in enumerate((0x63, 0x64, 0x65, 0x66)):
+        k += 1
+        if k % N != S:
+            continue
+        tx = gen.gen_tx(r, 2, 2, coinbase=False, script_kw={"n_tokens": 1})
+        raw = wire.tx_encode(tx).hex()
+        o2 = (0x63, 0x64, 0x65, 0x66)[(oi + 1) % 4]
+        subs = [b"\x51" + bytes([opn]) + b"\xab\x52\x68\xac", b"\x51" + bytes([opn]) + b"\x52\x67\xab\x53\x68\xac", b"\x51" + bytes([opn, o2]) + b"\xab\x68\x67" + bytes([o2]) + b"\x67\xab\x68\x68\xab"]
+        for sub in subs:
+            for f in flags:
+                yield {"k": "pre", "tx": raw, "flag": f, "idx": 0, "script": sub.hex(), "value": gen.u64(r), "deep_sep": 1}
     # random
     for _ in range(n_random):
         ni = r.choice([1, 1, 2, 3, 4, 6, 8])
